@@ -20,7 +20,7 @@ def BOUND(tier):
 
 
 def RULE(tier):
-    return ("" if tier == "quick" else "thorough tier: every forest of nesting depth <= 2 with <= 4 leaves and of depth 3 with <= 2 leaves; deviation bound 3 on forests of <= 2 leaves, else 2. ") + ("every doer forest shape of the tier x every execution with <= %d deviations (config, leaf kind, per-step "
+    return ("" if tier == "quick" else "thorough tier: every forest of nesting depth <= 2 with <= 4 leaves and of depth 3 with <= 2 leaves; deviation bound 3 on forests of <= 2 leaves, else 2; the configuration sweeps (full grid of tock x start x limit x way of configuring) with one deviation. ") + ("every doer forest shape of the tier x every execution with <= %d deviations (config, leaf kind, per-step "
             "yield/return/raise/complete-or-fail in enter, limit and start tyme given to the constructor or to do()/ado() over stale constructor values (optionally followed by a second run without arguments), and which ready asyncio handle runs next while 0..2 competitor "
             "tasks spin on sleep(0)); the run with Doist.do() and the run with Doist.ado() on the virtual loop must give "
             "identical event traces, tymes, done flags, completion cycle and forced exits." % BOUND(tier))
@@ -116,4 +116,12 @@ def _diff(a, b):
     return ("trace-length", "do %d events, ado %d" % (len(a[0]), len(b[0])))
 
 
-run_job, replay = standard(harness, BOUND, job_bound=sched.tier_bound)
+def job_bound(job, tier):
+    """the configuration sweeps keep one deviation in both tiers (every execution is two runs plus the loop's choices: with two
+    deviations a single sweep shard ran for more than an hour)"""
+    if "sweep" in job:
+        return 2          # standard() takes one off for sweep jobs
+    return sched.tier_bound(job, tier)
+
+
+run_job, replay = standard(harness, BOUND, job_bound=job_bound)
